@@ -113,10 +113,45 @@ fn short(s: &str) -> String {
     }
 }
 
+/// What `ans` may hold after a query that was answered with `got`, given that
+/// it held `alt` before (second component: the statement leaves it open).
+fn after(
+    alt: &Option<Number>,
+    got: &Result<QueryReply, QueryError>,
+    flag: bool,
+    plain: bool,
+) -> Vec<(Option<Number>, bool)> {
+    match got {
+        Ok(QueryReply::Number(parts)) if flag && plain => match &parts.raw_value {
+            Some(raw) => vec![(Some(raw.clone()), false)],
+            None => vec![(alt.clone(), false)],
+        },
+        Ok(QueryReply::Number(parts)) if flag => {
+            // A numeric reply to something that is not a plain expression (`x ->`
+            // with nothing after the arrow): the statement can be read either way.
+            let mut v = vec![(alt.clone(), false)];
+            if let Some(raw) = &parts.raw_value {
+                v.push((Some(raw.clone()), false));
+            }
+            v
+        }
+        Ok(QueryReply::Duration(d)) if flag && plain => {
+            // A result in seconds is rendered as a duration breakdown; whether it
+            // counts as "numeric result" is left open by the statement: accept both.
+            let mut v = vec![(alt.clone(), true)];
+            if let Some(raw) = &d.raw.raw_value {
+                v.push((Some(raw.clone()), true));
+            }
+            v
+        }
+        _ => vec![(alt.clone(), false)],
+    }
+}
+
 /// Evaluate `query` on `ctx` (touched only through `&self` and two public
 /// fields) once per alternative of the model, and return the alternatives whose
-/// reply equals the observed one, each mapped to what `ans` may be afterwards
-/// (flagged when the statement leaves it open), plus all expected texts.
+/// reply equals the observed one, each mapped to what `ans` may be afterwards,
+/// plus all expected texts.
 #[allow(clippy::too_many_arguments)]
 fn judge(
     ctx: &mut Context,
@@ -125,6 +160,7 @@ fn judge(
     now: DateTime<Local>,
     flag: bool,
     plain: bool,
+    got: &Result<QueryReply, QueryError>,
     got_json: &serde_json::Value,
     got_text: &str,
 ) -> (Vec<(Option<Number>, bool)>, Vec<String>) {
@@ -136,36 +172,153 @@ fn judge(
         let want = ctx.eval_query(query);
         let (want_json, want_text) = render(&want);
         if want_json == *got_json && want_text == got_text {
-            match &want {
-                Ok(QueryReply::Number(parts)) if flag && plain => match &parts.raw_value {
-                    Some(raw) => matched.push((Some(raw.clone()), false)),
-                    None => matched.push((alt.clone(), false)),
-                },
-                Ok(QueryReply::Number(parts)) if flag => {
-                    // A numeric reply to something that is not a plain expression
-                    // (`x ->` with nothing after the arrow): the statement can be
-                    // read either way.
-                    matched.push((alt.clone(), false));
-                    if let Some(raw) = &parts.raw_value {
-                        matched.push((Some(raw.clone()), false));
-                    }
-                }
-                Ok(QueryReply::Duration(d)) if flag && plain => {
-                    // A result in seconds is rendered as a duration breakdown; whether
-                    // it counts as "numeric result" is left open by the statement:
-                    // accept both.
-                    matched.push((alt.clone(), true));
-                    if let Some(raw) = &d.raw.raw_value {
-                        matched.push((Some(raw.clone()), true));
-                    }
-                }
-                _ => matched.push((alt.clone(), false)),
-            }
+            matched.extend(after(alt, got, flag, plain));
         }
         expected_texts.push(want_text);
     }
     ctx.previous_result = None;
     (matched, expected_texts)
+}
+
+#[derive(Serialize, Deserialize)]
+struct ProbeRequest {
+    /// Each alternative in the form `Number`'s derived `Deserialize` accepts
+    /// (its `Serialize` goes through a display-oriented form that does not
+    /// round-trip), or null.
+    alts: Vec<serde_json::Value>,
+    now_ms: i64,
+    line: String,
+}
+
+fn wire(n: &Option<Number>) -> Option<serde_json::Value> {
+    use rink_core::types::Numeric;
+    match n {
+        None => Some(serde_json::Value::Null),
+        Some(n) => {
+            let value = match &n.value {
+                Numeric::Rational(r) => serde_json::json!({ "Rational": r }),
+                Numeric::Float(f) if f.is_finite() => serde_json::json!({ "Float": f }),
+                Numeric::Float(_) => return None,
+            };
+            Some(serde_json::json!({ "value": value, "unit": n.unit }))
+        }
+    }
+}
+
+#[derive(Serialize, Deserialize)]
+struct ProbeReply {
+    replies: Vec<(serde_json::Value, String)>,
+}
+
+/// `h-history C15 probe`: one request on stdin, one reply on stdout, from a
+/// context built in this brand-new process.
+pub fn probe_main() -> i32 {
+    let mut input = String::new();
+    if std::io::Read::read_to_string(&mut std::io::stdin(), &mut input).is_err() {
+        return 2;
+    }
+    let req: ProbeRequest = match serde_json::from_str(&input) {
+        Ok(r) => r,
+        Err(_) => return 2,
+    };
+    let mut replies = Vec::new();
+    for alt in &req.alts {
+        let alt: Option<Number> = if alt.is_null() {
+            None
+        } else {
+            match serde_json::from_value(alt.clone()) {
+                Ok(n) => Some(n),
+                Err(_) => return 2,
+            }
+        };
+        // A new context for every alternative: nothing has been evaluated on it.
+        let mut ctx = fresh_context();
+        ctx.previous_result = alt;
+        ctx.set_time(at(req.now_ms));
+        let mut iter = text_query::TokenIterator::new(req.line.trim()).peekable();
+        let query = text_query::parse_query(&mut iter);
+        replies.push(render(&ctx.eval_query(&query)));
+    }
+    println!("{}", serde_json::to_string(&ProbeReply { replies }).unwrap());
+    0
+}
+
+/// The reply of a *fresh process* (fresh context, fresh statics and
+/// thread-locals) for each alternative of the model. None: the helper process
+/// could not be run (the caller falls back to an in-process fresh context).
+fn pristine_process_eval(
+    model: &[Option<Number>],
+    now_ms: i64,
+    line: &str,
+) -> Option<Vec<(serde_json::Value, String)>> {
+    use std::io::Write;
+    use std::process::{Command, Stdio};
+    let exe = std::env::current_exe().ok()?;
+    let mut child = Command::new(exe)
+        .args(["C15", "probe"])
+        .env("TZ", "UTC")
+        .env("RUST_BACKTRACE", "0")
+        .stdin(Stdio::piped())
+        .stdout(Stdio::piped())
+        .stderr(Stdio::null())
+        .spawn()
+        .ok()?;
+    let req = ProbeRequest {
+        alts: model.iter().map(wire).collect::<Option<Vec<_>>>()?,
+        now_ms,
+        line: line.to_string(),
+    };
+    child
+        .stdin
+        .take()?
+        .write_all(serde_json::to_string(&req).ok()?.as_bytes())
+        .ok()?;
+    let out = child.wait_with_output().ok()?;
+    if !out.status.success() {
+        return None;
+    }
+    let rep: ProbeReply = serde_json::from_slice(&out.stdout).ok()?;
+    if rep.replies.len() != model.len() {
+        return None;
+    }
+    Some(rep.replies)
+}
+
+/// Judge the observed reply against a pristine evaluation: a fresh process if
+/// possible, else a fresh in-process context.
+#[allow(clippy::too_many_arguments)]
+fn judge_pristine(
+    model: &[Option<Number>],
+    query: &Query,
+    line: &str,
+    now: DateTime<Local>,
+    now_ms: i64,
+    flag: bool,
+    plain: bool,
+    got: &Result<QueryReply, QueryError>,
+    got_json: &serde_json::Value,
+    got_text: &str,
+    bump: &dyn Fn(&str),
+) -> (Vec<(Option<Number>, bool)>, Vec<String>) {
+    match pristine_process_eval(model, now_ms, line) {
+        Some(replies) => {
+            bump("pristine_eval_in_fresh_process");
+            let mut matched = Vec::new();
+            let mut texts = Vec::new();
+            for (alt, (j, t)) in model.iter().zip(replies.into_iter()) {
+                if j == *got_json && t == got_text {
+                    matched.extend(after(alt, got, flag, plain));
+                }
+                texts.push(t);
+            }
+            (matched, texts)
+        }
+        None => {
+            bump("pristine_eval_in_process_fallback");
+            let mut p = fresh_context();
+            judge(&mut p, model, query, now, flag, plain, got, got_json, got_text)
+        }
+    }
 }
 
 fn run_history(sc: &Scenario, fresh_reference: bool) -> (Option<Violation>, Vec<String>, u64, BTreeMap<String, u64>) {
@@ -247,7 +400,7 @@ fn run_history(sc: &Scenario, fresh_reference: bool) -> (Option<Violation>, Vec<
                     let query = text_query::parse_query(&mut iter);
                     let plain = matches!(query, Query::Expr(_));
                     let (mut matched, mut expected_texts) =
-                        judge(reference, &model, &query, now, flag, plain, &got_json, &got_text);
+                        judge(reference, &model, &query, now, flag, plain, &got, &got_json, &got_text);
                     if matched.iter().any(|(_, d)| *d) {
                         bump("duration_reply_both_accepted");
                     }
@@ -256,8 +409,9 @@ fn run_history(sc: &Scenario, fresh_reference: bool) -> (Option<Violation>, Vec<
                         // never evaluated anything: only that makes the verdict a pure
                         // function of this history.
                         bump("arbitrated_with_pristine_context");
-                        let mut p = fresh_context();
-                        let (m2, e2) = judge(&mut p, &model, &query, now, flag, plain, &got_json, &got_text);
+                        let (m2, e2) = judge_pristine(
+                            &model, &query, line, now, now_ms, flag, plain, &got, &got_json, &got_text, &bump,
+                        );
                         if m2.is_empty() {
                             expected_texts = e2;
                         } else {
@@ -269,13 +423,15 @@ fn run_history(sc: &Scenario, fresh_reference: bool) -> (Option<Violation>, Vec<
                         }
                     }
                     if !matched.is_empty() && probe_at == Some(i) {
-                        // Pristine probe: the same query on a context that has evaluated
-                        // nothing before it. State that leaks between queries through
-                        // shared references (a cache, a memo) shows here even when the
+                        // Pristine probe: the same query in a brand-new process (fresh
+                        // context, fresh statics and thread-locals). State that leaks
+                        // between queries through shared references, a thread-local or a
+                        // static (a cache, a memo) shows here even when the in-process
                         // reference context leaks in exactly the same way.
                         bump("pristine_probe");
-                        let mut p = fresh_context();
-                        let (m3, e3) = judge(&mut p, &model, &query, now, flag, plain, &got_json, &got_text);
+                        let (m3, e3) = judge_pristine(
+                            &model, &query, line, now, now_ms, flag, plain, &got, &got_json, &got_text, &bump,
+                        );
                         if m3.is_empty() {
                             matched.clear();
                             expected_texts = e3;
